@@ -157,6 +157,30 @@ func (d *dynTypes) walk(v ssa.Value, depth int) {
 			return
 		}
 		d.fromField(st.Field(x.Field), x.X, x.Parent(), v, depth+1)
+	case *ssa.Parameter:
+		// the value is handed to a helper: what every caller passes for it
+		// (plain, go and defer calls; a function that escapes as a value has
+		// callers that cannot be enumerated)
+		fn := x.Parent()
+		idx := paramIndex(x)
+		obj, _ := fn.Object().(*types.Func)
+		if obj == nil || idx < 0 || len(d.c.FuncRefs(obj)) > 0 {
+			d.unk(v, "parameter of a function whose callers cannot be enumerated:")
+			return
+		}
+		sites := d.c.CallSites(obj)
+		if len(sites) == 0 {
+			d.unk(v, "parameter of a function without callers:")
+			return
+		}
+		for _, s := range sites {
+			a := argOf(s.Instr.Common(), idx)
+			if a == nil {
+				d.unk(v, "parameter without argument at "+kit.FuncName(s.Fn)+":")
+				continue
+			}
+			d.walk(a, depth+1)
+		}
 	case *ssa.Call:
 		callee := x.Call.StaticCallee()
 		if callee == nil || callee.Blocks == nil || callee.Signature.Results().Len() != 1 {
